@@ -118,6 +118,13 @@ def finish(meta, out, src, verdict):
     meta["caught"] = bool(caught)
     meta["verdict"] = verdict
     os.makedirs(out, exist_ok=True)
+    try:    # keep hand-written annotations of an earlier evaluation
+        prev = json.load(open(os.path.join(out, "meta.json")))
+        for k in ("needs", "miss_reason", "summary"):
+            if k in prev and k not in meta:
+                meta[k] = prev[k]
+    except Exception:   # noqa
+        pass
     for f in ("patch.diff", "demo.py", "note.md"):
         if os.path.exists(os.path.join(src, f)):
             shutil.copy(os.path.join(src, f), os.path.join(out, f))
